@@ -1,4 +1,100 @@
-import LabreaModel.Eval
+/-
+  C16 — feature switches change side behaviour only, never values.
+-/
+import LabreaModel.EvalLemmas
+import LabreaModel.MonadLemmas
 namespace Labrea
-theorem c16_placeholder : True := trivial
+
+/-- **cache_off_no_io.** With `labrea.cache.disabled()` active, no operation of any expression on any
+    options from any state reads, writes or forgets a cache entry, and no backend call is consumed:
+    the store after the run is the store before it.  (All 23 node kinds, all four operations, any fuel.) -/
+theorem cache_off_no_io {env : Env} (hoff : env.cacheCtxOff = true) (n : Nat) (op : Op) (e : Expr) (o : V)
+    (s : St) (r : Except Err V) (s' : St) (h : ev env n op e o s = some (r, s')) :
+    s'.caches = s.caches ∧ s'.scripts = s.scripts :=
+  ev_ctxOff_sameStore hoff n op e o s r s' h
+
+/-- with caching disabled `Cached.evaluate` is the inner evaluation (it recomputes) -/
+theorem cache_off_recomputes {env : Env} (hoff : env.cacheCtxOff = true) (run : Run) (x : Expr) (c : Nat) (o : V) (s : St) :
+    cachedOp env run x c .evaluate o s =
+      match run .evaluate x o { s with events := .req "cache_exists" x.id :: s.events } with
+      | Option.none => Option.none
+      | some (.error e, s') => some (.error e, s')
+      | some (.ok v, s') => some (.ok v, { s' with events := .req "cache_set" x.id :: s'.events }) := by
+  simp only [cachedOp, cacheLookup, existsReq, setReq, cacheDisabled, hoff, if_true, bind_run, emit_run, pure_run]
+  cases hx : run .evaluate x o { s with events := .req "cache_exists" x.id :: s.events } with
+  | none => simp [bind_run, hx]
+  | some p => obtain ⟨r, s'⟩ := p; cases r <;> simp [bind_run, hx]
+
+/-- a `nocache` backend never answers: `exists` is false, `get` fails, `set` stores nothing -/
+theorem nocache_backend {env : Env} (run : Run) (x : Expr) (c : Nat) (o v : V) (hk : env.cacheKind c = .nocache) :
+    backendExists env run x c o = pure false ∧ backendGet env run x c o = raise cacheGetFailure ∧
+      backendSet env run x c o v = pure () := by
+  simp [backendExists, backendGet, backendSet, hk]
+
+/-- **effects_off_none.** When the effects switch evaluates truthy under the options, `Computation.evaluate`
+    returns the value and runs no effect (no callback expression is even evaluated). -/
+theorem effects_off_none (env : Env) (run : Run) (x : Expr) (effects : List Expr) (o : V) (s s1 s2 : St) (v sw : V)
+    (hx : run .evaluate x o s = some (.ok v, s1))
+    (hs : run .evaluate effectsDisabledOption o s1 = some (.ok sw, s2)) (ht : sw.truthy = true) :
+    computationOp env run x effects .evaluate o s = some (.ok v, s2) := by
+  simp [computationOp, bind_run, hx, hs, ht]
+
+/-- the value of a `Computation` is the value of its body, effects on or off -/
+theorem effects_preserve_value (env : Env) (run : Run) (x : Expr) (effects : List Expr) (o : V) (s s' : St) (w : V)
+    (h : computationOp env run x effects .evaluate o s = some (.ok w, s')) :
+    ∃ s1, run .evaluate x o s = some (.ok w, s1) := by
+  simp only [computationOp, bind_run] at h
+  cases hx : run .evaluate x o s with
+  | none => simp [hx] at h
+  | some p =>
+    obtain ⟨r, s1⟩ := p
+    cases r with
+    | error e => simp [hx] at h
+    | ok v =>
+      refine ⟨s1, ?_⟩
+      simp only [hx] at h
+      cases hs : run .evaluate effectsDisabledOption o s1 with
+      | none => simp [hs] at h
+      | some q =>
+        obtain ⟨r2, s2⟩ := q
+        cases r2 with
+        | error e => simp [hs] at h
+        | ok sw =>
+          simp only [hs, pure_run] at h
+          by_cases ht : sw.truthy = true
+          · simp [ht] at h; rw [h.1]
+          · simp only [ht] at h
+            cases hf : forM' (fun cb => do
+                  let f ← run .evaluate cb o
+                  let _ ← call env f [v] []
+                  pure ()) effects s2 with
+            | none => simp [bind_run, hf] at h
+            | some q2 =>
+              obtain ⟨r3, s3⟩ := q2
+              cases r3 <;> simp [bind_run, hf] at h
+              rw [h.1]
+
+/-- **logging_off_none.** Under `labrea.logging.disabled()` a `Logged` node issues its log request and
+    emits nothing; otherwise exactly one record per evaluation, unless the option switch is truthy. -/
+theorem logging_ctx_off (env : Env) (run : Run) (n id : Nat) (x : Expr) (msg : String) (o : V) (s : St)
+    (hoff : env.logCtxOff = true) :
+    nodeOp env run n .evaluate (.logged id x msg) o s =
+      run .evaluate x o { s with events := .req "log" x.id :: s.events } := by
+  simp [nodeOp, bind_run, hoff]
+
+theorem logging_one_request_per_evaluation (env : Env) (run : Run) (n id : Nat) (x : Expr) (msg : String) (o : V) (s s1 : St) (sw : V)
+    (hon : env.logCtxOff = false)
+    (hs : run .evaluate loggingDisabledOption o { s with events := .req "log" x.id :: s.events } = some (.ok sw, s1)) :
+    nodeOp env run n .evaluate (.logged id x msg) o s =
+      run .evaluate x o { s1 with events := .log msg (!sw.truthy) :: s1.events } := by
+  simp [nodeOp, bind_run, hon, hs]
+
+/-! non-vacuity: the cache-off hypothesis is satisfiable and the run terminates -/
+def c16Env : Env :=
+  { β := fun f a k => .ok (.app f a k), binds := fun _ _ => .error "x", ov := fun _ => default,
+    ds := fun _ => default, cacheKind := fun _ => .memory, cacheCtxOff := true }
+
+example : c16Env.cacheCtxOff = true := rfl
+example : (ev c16Env 5 .evaluate (.cached 2 (.value 1 (.int 7)) 0) (.dict []) {}).isSome = true := by decide +kernel
+
 end Labrea
